@@ -18,7 +18,10 @@ if os.path.exists(os.path.join(cd, "PENDING.txt")):
 
 NOTE_COMMON = ("Trusted: Coq 8.16.1 kernel incl. vm_compute (no native_compute); hand-written Gallina model tied to /repo by the "
                "function-granular correspondence run on every invocation (extracted OCaml driver vs the implementation); "
-               "extraction with ExtrOcamlBasic/ExtrOcamlString only; harness generators/adapters. ")
+               "extraction with ExtrOcamlBasic/ExtrOcamlString only; harness generators/adapters; the source translator "
+               "harness/gen/pysrc.py (its reading of Python syntax, its tables, the prelude symbols coq/Model/SrcPrelude*.v), whose output is "
+               "regenerated from /repo on every run and proved equal to the model (`..._source_tie` theorems, all twenty checks; callee ties "
+               "in harness/callee_ties.py; tools/srccover.json lists what is inside that tie); the table generators harness/gen/*.py. ")
 
 m = {
     "version": 1,
@@ -29,8 +32,10 @@ m = {
               "source_commits": [], "add_only": True},
     "engines": [{"name": "coq-proof+correspondence", "path": "check", "serves_properties": sorted(BUILT),
                  "kind_free_text": "Rocq/Coq 8.16.1 theorems over executable Gallina models (coq/), rebuilt on every run; "
-                                   "model tied to /repo by differential execution of the extracted model against the implementation "
-                                   "(harness/), generated tables re-proved against the working tree (coq/Gen)"}],
+                                   "model tied to /repo (a) by a source translator that regenerates Gallina definitions from the current source text on "
+                                   "every run, each proved equal to the model function the property theorems are about, and (b) by differential "
+                                   "execution of the extracted model against the implementation (harness/); generated tables re-proved against "
+                                   "the working tree (coq/Gen)"}],
     "checks": [],
     "notes": "See DESIGN.md. Every check: ./check Cxx (quick) / ./check Cxx --tier thorough. known_findings.json lists recorded findings.",
     "not_applicable": [],
@@ -47,7 +52,7 @@ for pid in ALL:
             "engine": "coq-proof+correspondence",
             "level_claimed": {"category": "proof", "text": b["text"], "design_ref": b["ref"]},
             "level_note": NOTE_COMMON + b.get("note", ""),
-            "technique": b.get("technique", "machine-checked proof in Rocq (Coq 8.16.1) over an executable Gallina model + checked model/code correspondence"),
+            "technique": b.get("technique", "machine-checked proof in Rocq (Coq 8.16.1) over an executable Gallina model; model tied to the code by a source translator with proved equalities (re-checked every run) and by differential execution"),
         })
     else:
         m["not_applicable"].append({"property_id": pid, "reason": PENDING.get(pid, "check not built yet in this session; no claim is made")})
